@@ -1,5 +1,6 @@
 """gnpy/core/network.py — auto-design arithmetic and amplifier selection (C08, C09, C10, C17)."""
 from .common import *   # noqa
+import itertools
 
 SPAN = obj('<ns>', delta_power_range_db=lst(real(), real(), real()), span_loss_ref=real(), power_slope=real(),
            voa_margin=real(), voa_step=real(), target_extended_gain=real(), max_fiber_lineic_loss_for_raman=real(),
@@ -342,7 +343,8 @@ def _rec_filter(it, a, k):
 
 
 OV_MB = {('gnpy.core.network', 'filter_edfa_list_based_on_targets'): lambda it: _Builtin('rated', _rec_filter),
-         ('gnpy.core.network', 'find_type_varieties'): lambda it: _Builtin('groups', lambda it2, a, k: [])}
+         # the library also holds a type outside the restrictions that shares the band amplifiers of the permitted one
+         ('gnpy.core.network', 'find_type_varieties'): lambda it: _Builtin('groups', lambda it2, a, k: [['outsider', 'group'], ['group']])}
 _MBLIB = dct_k({'group': obj('<ns>', multi_band=const(['amp_C', 'amp_L']), type_def=const('multi_band')),
                 'amp_C': obj('<ns>', f_min=real(), f_max=real(), type_variety=const('amp_C')),
                 'amp_L': obj('<ns>', f_min=real(), f_max=real(), type_variety=const('amp_L'))})
@@ -360,7 +362,9 @@ contract('gnpy.core.network.preselect_multiband_amps', name='gnpy.core.network.p
                    "network, equipment, deviation_db['C'], tilt_target['C'])", 'asked': "equipment['ghost_call']"},
          ensures=[('rated_against_this_bands_targets', "asked['gain_target'] == g[0] and asked['power_target'] == g[1] and asked['tilt_target'] == g[2]"),
                   ('with_the_librarys_extended_gain_allowance', "asked['target_extended_gain'] == target_extended_gain"),
-                  ('for_this_amplifier', "asked['uid'] == uid")],
+                  ('for_this_amplifier', "asked['uid'] == uid"),
+                  # the selection only shrinks: a type of the library that was not permitted never enters it
+                  ('permitted_set_never_widened', "all(m == 'group' for m in result[0])")],
          modifies=["equipment['ghost_call'][*]"])
 
 # ---------------------------------------------------------------- head of a line: what the first amplifier is told about the power
@@ -389,36 +393,55 @@ contract('gnpy.core.network.set_egress_amplifier', name='gnpy.core.network.set_e
          modifies=['dp[*]', 'prev_dp[*]', 'voa[*]', 'prev_voa[*]', 'pref_total_db[*]'])
 
 # ---------------------------------------------------------------- multiband amplifier, one band: the models offered to the selection of
-# a band amplifier are exactly the members of the (pre)selected group whose own band covers that design band, and the selection is
-# asked for this band's own figures (real body of the band loop of set_egress_amplifier; the selection itself records what it gets)
-def _rec_set_one(it, a, k):
-    g = it.p.live['equipment']['ghost_call']
-    for nm, v in zip(('amp', 'prev_node', 'next_node', 'power_mode', 'prev_voa', 'prev_dp', 'pref_ch_db', 'pref_total_db', 'network',
-                      'restrictions', 'equipment', 'verbose'), a):
-        g[nm] = v
-    g.update(k)
-    import z3 as _z3
-    from pyvc.vals import SV as _SV, fresh as _fresh
-    return (_SV(_fresh('dp_band', _z3.RealSort())), _SV(_fresh('voa_band', _z3.RealSort())))
+# a band amplifier are exactly the amplifiers of the (pre)selected group that cover that design band and belong to one of the multiband
+# types still compatible with the amplifiers already chosen for the other bands; the selection is asked for this band's own figures, and
+# the compatible types are narrowed to those holding the amplifier it chose (real body of the band loop of set_egress_amplifier; the
+# selection itself records what it gets and "chooses" the model named by the contract variant)
+def _rec_set_one(chosen):
+    def rec(it, a, k):
+        import z3 as _z3
+        from pyvc.vals import SV as _SV, fresh as _fresh
+        g = it.p.live['equipment']['ghost_call']
+        for nm, v in zip(('amp', 'prev_node', 'next_node', 'power_mode', 'prev_voa', 'prev_dp', 'pref_ch_db', 'pref_total_db', 'network',
+                          'restrictions', 'equipment', 'verbose'), a):
+            g[nm] = v
+        g.update(k)
+        a[0].fields['type_variety'] = chosen
+        return (_SV(_fresh('dp_band', _z3.RealSort())), _SV(_fresh('voa_band', _z3.RealSort())))
+    return rec
 
 
-OV_BAND = {('gnpy.core.network', 'set_one_amplifier'): lambda it: _Builtin('selected', _rec_set_one)}
-contract('gnpy.core.network.set_egress_amplifier', name='gnpy.core.network.set_egress_amplifier[multiband amplifier, one band]', loop=4,
-         loop_returns=['dp', 'voa'], props=['C10'], use_at_calls=False, overrides=OV_BAND,
-         params={'band_name': const('C'), 'amp': obj('Edfa', uid=string()), 'restrictions_edfa': const(['amp_C', 'amp_L']),
-                 'prev_node': obj('Fiber'), 'next_node': obj('Fiber'), 'power_mode': boolean(), 'pref_ch_db': real(),
-                 'prev_voa': dct_k({'C': real(), 'L': real()}), 'prev_dp': dct_k({'C': real(), 'L': real()}),
-                 'pref_total_db': dct_k({'C': real(), 'L': real()}), 'deviation_db': dct_k({'C': real(), 'L': real()}),
-                 'tilt_target': dct_k({'C': real(), 'L': real()}), 'network': obj('<ns>'), 'verbose': boolean(),
-                 '_design_bands': dct_k({'C': dct(f_min=real(), f_max=real()), 'L': dct(f_min=real(), f_max=real())}),
-                 'dp': dct(), 'voa': dct(),
-                 'equipment': dct(Edfa=_MBLIB, ghost_call=dct())},
-         let={'asked': "equipment['ghost_call']", 'lib': "equipment['Edfa']", 'band': "_design_bands['C']"},
-         ensures=[('offered_models_cover_the_design_band',
-                   "iff('amp_C' in asked['restrictions'], lib['amp_C'].f_min <= band['f_min'] and lib['amp_C'].f_max >= band['f_max']) and "
-                   "iff('amp_L' in asked['restrictions'], lib['amp_L'].f_min <= band['f_min'] and lib['amp_L'].f_max >= band['f_max'])"),
-                  ('only_members_of_the_group', "all(n == 'amp_C' or n == 'amp_L' for n in asked['restrictions'])"),
-                  ('this_bands_own_figures', "asked['amp'] is amp and asked['prev_voa'] == prev_voa['C'] and asked['prev_dp'] == prev_dp['C'] and "
-                                             "asked['pref_total_db'] == pref_total_db['C'] and asked['deviation_db'] == deviation_db['C'] and "
-                                             "asked['tilt_target'] == tilt_target['C'] and asked['pref_ch_db'] == pref_ch_db")],
-         modifies=["equipment['ghost_call'][*]", 'dp[*]', 'voa[*]'])
+_BAMP = lambda nm: obj('<ns>', f_min=real(), f_max=real(), type_variety=const(nm))
+_MBLIB2 = dct_k({'group': obj('<ns>', multi_band=const(['amp_C', 'amp_L']), type_def=const('multi_band')),
+                 'group2': obj('<ns>', multi_band=const(['amp_C2', 'amp_L']), type_def=const('multi_band')),
+                 'amp_C': _BAMP('amp_C'), 'amp_C2': _BAMP('amp_C2'), 'amp_L': _BAMP('amp_L')})
+SPEC_BAND = '''
+def COVERS(lib, n, band):
+    return lib[n].f_min <= band['f_min'] and lib[n].f_max >= band['f_max']
+def HELD(lib, n, types):
+    return any(n in lib[m].multi_band for m in types)
+'''
+for _cand, _chosen in itertools.product((['group', 'group2'], ['group2'], ['group']), ('amp_C', 'amp_C2', 'amp_L')):
+    contract('gnpy.core.network.set_egress_amplifier',
+             name=f'gnpy.core.network.set_egress_amplifier[multiband amplifier, one band; compatible types {_cand}, {_chosen} chosen]', loop=4,
+             loop_returns=['dp', 'voa', 'candidate_types'], props=['C10'], use_at_calls=False, spec=SPEC_BAND,
+             overrides={('gnpy.core.network', 'set_one_amplifier'): (lambda c: lambda it: _Builtin('selected', _rec_set_one(c)))(_chosen)},
+             params={'band_name': const('C'), 'amp': obj('Edfa', uid=string(), type_variety=string()),
+                     'restrictions_edfa': const(['amp_C', 'amp_L', 'amp_C2']), 'candidate_types': const(list(_cand)),
+                     'prev_node': obj('Fiber'), 'next_node': obj('Fiber'), 'power_mode': boolean(), 'pref_ch_db': real(),
+                     'prev_voa': dct_k({'C': real(), 'L': real()}), 'prev_dp': dct_k({'C': real(), 'L': real()}),
+                     'pref_total_db': dct_k({'C': real(), 'L': real()}), 'deviation_db': dct_k({'C': real(), 'L': real()}),
+                     'tilt_target': dct_k({'C': real(), 'L': real()}), 'network': obj('<ns>'), 'verbose': boolean(),
+                     '_design_bands': dct_k({'C': dct(f_min=real(), f_max=real()), 'L': dct(f_min=real(), f_max=real())}),
+                     'dp': dct(), 'voa': dct(),
+                     'equipment': dct(Edfa=_MBLIB2, ghost_call=dct())},
+             let={'asked': "equipment['ghost_call']", 'lib': "equipment['Edfa']", 'band': "_design_bands['C']", 'cand': repr(list(_cand))},
+             ensures=[('offered_models_cover_the_band_and_complete_a_compatible_type',
+                       "all(iff(n in asked['restrictions'], COVERS(lib, n, band) and HELD(lib, n, cand)) for n in ['amp_C', 'amp_L', 'amp_C2'])"),
+                      ('only_members_of_the_group', "all(n in ['amp_C', 'amp_L', 'amp_C2'] for n in asked['restrictions'])"),
+                      ('this_bands_own_figures', "asked['amp'] is amp and asked['prev_voa'] == prev_voa['C'] and asked['prev_dp'] == prev_dp['C'] and "
+                                                 "asked['pref_total_db'] == pref_total_db['C'] and asked['deviation_db'] == deviation_db['C'] and "
+                                                 "asked['tilt_target'] == tilt_target['C'] and asked['pref_ch_db'] == pref_ch_db"),
+                      ('compatible_types_narrowed_to_those_holding_the_chosen_amplifier',
+                       f"result[2] == [m for m in cand if {_chosen!r} in lib[m].multi_band]")],
+             modifies=["equipment['ghost_call'][*]", 'dp[*]', 'voa[*]', 'amp.type_variety'])
